@@ -385,6 +385,27 @@ Section Coders.
     | _, _ => True
     end.
 
+  (* clause (a) alone: no enum member at a rejected Unknown constant *)
+  Fixpoint enum_ok (t : fty) (v : gval) {struct t} : Prop :=
+    match t, v with
+    | TEnum name _, GInt z =>
+        forall ed, enum_coder name = Ok ed -> ~ unknown_rejected (e_json (fst ed)) (fst ed) z
+    | TSlice e, GSlice (Some l) => Forall (enum_ok e) l
+    | TMap e, GMap (Some l) => Forall (fun kv => enum_ok e (snd kv)) l
+    | TPtr e, GPtr (Some p) => enum_ok e p
+    | TStruct fs, GStruct vs => all2 (fun fd v => enum_ok (fd_ty fd) v) fs vs
+    | _, _ => True
+    end.
+
+  (* the negation of clause (a) at the top level of a struct: some member
+     without omitempty is an enum at a rejected Unknown constant *)
+  Definition bad_enum_member (fs : list fdecl) (vs : list gval) : Prop :=
+    exists pre fd post vpre z vpost name custom ed,
+      fs = (pre ++ fd :: post)%list /\ vs = (vpre ++ GInt z :: vpost)%list /\
+      List.length pre = List.length vpre /\
+      fd_ty fd = TEnum name custom /\ fd_omit fd = false /\
+      enum_coder name = Ok ed /\ unknown_rejected (e_json (fst ed)) (fst ed) z.
+
   (* (c) a pointer to a value that itself prints as null (a nil slice, map or
          pointer): null comes back as the nil pointer *)
   Fixpoint prints_null (v : gval) : bool :=
